@@ -259,6 +259,16 @@ def run(ctx):
     import nuspacesim.simulation.eas_optical.cphotang as cp
 
     kernels()
+    # the density at a detector off the reference orbit, against the reference model for THAT altitude
+    for h in (33.0, 400.0, 1000.0):
+        kh = cp.CphotAng(h)
+        for bd, a, E in itertools.product([5.0, 20.0], [0.0, 2.0, 8.0], [1.0, 100.0]):
+            with np.errstate(all="ignore"):
+                r = kh.run(np.float64(math.radians(bd)), np.float64(a), np.float64(E), 0.0, 0.0, None)
+            dr, ar = CR.shower(math.radians(bd), a, E, det_alt=h)
+            ctx.tick(1, ("density_at_detector", h))
+            if not (abs(float(r[0]) - dr) <= max(0.10 * dr, 0.1)):
+                ctx.violation("density_within_10_percent", {"kind": "det_event", "h": h, "ev": [math.radians(bd), a, E]}, dr, float(r[0]))
     for h in (33.0, 1000.0):
         kh = cp.CphotAng(h)
         for a, E in itertools.product([0.0, 2.0, 11.0], [1e-2, 1.0]):
@@ -295,6 +305,15 @@ def replay(case):
         r1 = evaluate((b, a, E))
         r2 = evaluate((math.radians(1.0), a, E))
         return [] if r1[6] == r2[6] else [("below_1_deg_treated_as_1_deg", "bit-identical to beta = 1 deg", "differs")]
+    if k == "det_event":
+        import nuspacesim.simulation.eas_optical.cphotang as cp
+
+        kernels()
+        b, a, E = case["ev"]
+        with np.errstate(all="ignore"):
+            r = cp.CphotAng(case["h"]).run(np.float64(b), np.float64(a), np.float64(E), 0.0, 0.0, None)
+        dr, _ = CR.shower(b, a, E, det_alt=case["h"])
+        return [] if abs(float(r[0]) - dr) <= max(0.10 * dr, 0.1) else [("density_within_10_percent", dr, float(r[0]))]
     if k == "lowbeta_det":
         import nuspacesim.simulation.eas_optical.cphotang as cp
 
